@@ -9,7 +9,8 @@
 
    Then: sd_get/sd_set/sd_write/sd_trunc/sd_read implement it; fs_get against fs_upd/fs_set; path resolution
    is insensitive to updates that keep kind and symlink target; be_open/be_writeat/be_sync/be_chtimes/
-   be_truncate/be_stat on a regular file reached without following a symlink. *)
+   be_truncate/be_stat on a regular file reached without following a symlink; Create of an absent name
+   (resolution in the tree with one new entry). *)
 From Coq Require Import List NArith ZArith Bool Lia ZifyBool ZifyNat ZifyN.
 From Verif Require Import Model.Backend.
 Import ListNotations.
